@@ -201,6 +201,8 @@ def _repr_cfgs():
     for kind in ("static", "gapped", "numpy", "fixed"):
         for n in (1, 2, 3):
             out.append({"kind": kind, "n": n})
+    for kind in ("static", "gapped", "numpy", "fixed"):       # the same on a binning that has been looked at before
+        out.append({"kind": kind, "n": 3, "warm": True})
     return out
 
 
@@ -283,6 +285,9 @@ class _representations:
               same_binning(old.self, a.self)]
         if len(v) > 1:
             cs.append(Not(result["eq_slice"]) if not isinstance(result["eq_slice"], bool) else not result["eq_slice"])
+        # representation invariant: whatever caches the source had, every filled cache of source, copy, static twin and slice
+        # agrees with that object's own bins
+        cs += [rep_ok(a.self), rep_ok(c), rep_ok(s), rep_ok(sl)]
         return And(*cs)
 
 
@@ -292,7 +297,7 @@ class _as_fixed_width:
     bound_note = BOUND
 
     def configs():
-        return [{"kind": k, "n": n} for k in ("static", "numpy") for n in (1, 2, 3)]
+        return [{"kind": k, "n": n} for k in ("static", "numpy", "gapped") for n in (1, 2, 3)] + [{"kind": "gapped", "n": 3, "warm": True}]
 
     def inputs(b):
         return dict(self=make_binning(b, "B", b.cfg.kind, b.cfg.n))
@@ -308,11 +313,16 @@ class _as_fixed_width:
                    same(list(bins_of(result, len(v))[0]), list(v[0])),
                    Implies(exact, same(pairs_flat(bins_of(result, len(v))), pairs_flat(v))))
 
-    @raises(ValueError, "irregular_bins_cannot_become_fixed_width")
+    @raises(ValueError, "irregular_or_gapped_bins_cannot_become_fixed_width")
     def _(o):
         v = bins_of(o.self)
         widths = [r - l for l, r in v]
-        return Not(And(*[absolute(widths[k + 1] - widths[k]) <= 1e-8 for k in range(len(widths) - 1)])) if len(widths) > 1 else False
+        if len(v) < 2:
+            return False
+        tol = lambda x, y: absolute(x - y) <= 1e-8 + 1e-5 * absolute(y)
+        regular = And(*[absolute(widths[k + 1] - widths[k]) <= 1e-8 for k in range(len(widths) - 1)])
+        consecutive = And(*[tol(v[k + 1][0], v[k][1]) for k in range(len(v) - 1)])
+        return Not(And(regular, consecutive))
 
 
 @contract(BN + "as_binning", props=["C07", "C12"])
